@@ -327,17 +327,20 @@ func (g *vfXGen) element(n int, ns string, explicitNS bool) (string, vfExpect) {
 		e := vfExpect{Kind: "*IQ", Addr: true, HasLang: true}
 		a := g.addressing(&e, []string{"get", "set", "result", "error"}, n, true)
 		var ch []string
-		switch g.r.Intn(5) {
-		case 0:
-		case 1:
-			ch = append(ch, vfKnownIQPayload[g.r.Intn(len(vfKnownIQPayload))])
-			feat(&e, "registered-payload")
-		case 2:
-			ch = append(ch, vfKnownIQPayload[g.r.Intn(len(vfKnownIQPayload))], `<error type="cancel"><feature-not-implemented xmlns="urn:ietf:params:xml:ns:xmpp-stanzas"/></error>`)
-			feat(&e, "registered-payload")
-		default:
-			ch = append(ch, g.unknown(deep(), ""))
-			feat(&e, "unknown-child")
+		for i := g.r.Intn(4); i > 0; i-- {
+			switch g.r.Intn(5) {
+			case 0:
+				ch = append(ch, vfKnownIQPayload[g.r.Intn(len(vfKnownIQPayload))])
+				feat(&e, "registered-payload")
+			case 1:
+				ch = append(ch, `<error type="cancel"><feature-not-implemented xmlns="urn:ietf:params:xml:ns:xmpp-stanzas"/></error>`)
+			default:
+				ch = append(ch, g.unknown(deep(), ""))
+				feat(&e, "unknown-child")
+			}
+		}
+		if len(ch) >= 2 {
+			e.Feature += "+several-children"
 		}
 		return "<iq" + xmlns + a + ">" + g.join(ch) + "</iq>", e
 	case k < 13:
@@ -361,25 +364,32 @@ func (g *vfXGen) element(n int, ns string, explicitNS bool) (string, vfExpect) {
 		if g.r.Intn(2) == 0 {
 			s += `<text xmlns="urn:ietf:params:xml:ns:xmpp-streams">` + g.escText(vfkit.Text(g.r, 10, true)) + `</text>`
 		}
-		return s + "</stream:error>", vfExpect{Kind: "StreamError", Feature: "stream-error"}
+		return s + g.extra() + "</stream:error>", vfExpect{Kind: "StreamError", Feature: "stream-error"}
 	case k < 15:
 		if g.r.Intn(2) == 0 {
-			return `<success xmlns="urn:ietf:params:xml:ns:xmpp-sasl">` + vfkit.Plain(g.r, g.r.Intn(8)) + `</success>`, vfExpect{Kind: "SASLSuccess", Feature: "sasl"}
+			return `<success xmlns="urn:ietf:params:xml:ns:xmpp-sasl">` + vfkit.Plain(g.r, g.r.Intn(8)) + g.extra() + `</success>`, vfExpect{Kind: "SASLSuccess", Feature: "sasl"}
 		}
 		cond := []string{"not-authorized", "aborted", "temporary-auth-failure", "vf-unknown"}[g.r.Intn(4)]
-		return `<failure xmlns="urn:ietf:params:xml:ns:xmpp-sasl"><` + cond + `/><text xml:lang="en">no</text></failure>`, vfExpect{Kind: "SASLFailure", Feature: "sasl"}
+		return `<failure xmlns="urn:ietf:params:xml:ns:xmpp-sasl"><` + cond + `/><text xml:lang="en">no</text>` + g.extra() + `</failure>`, vfExpect{Kind: "SASLFailure", Feature: "sasl"}
 	case k < 19:
 		switch g.r.Intn(7) {
 		case 0:
-			return `<enabled xmlns="urn:xmpp:sm:3"` + g.attr("id", vfkit.Text(g.r, 8, false)) + ` resume="true" max="300"/>`, vfExpect{Kind: "SMEnabled", Feature: "sm"}
+			x := g.extra()
+			if x == "" {
+				return `<enabled xmlns="urn:xmpp:sm:3"` + g.attr("id", vfkit.Text(g.r, 8, false)) + ` resume="true" max="300"/>`, vfExpect{Kind: "SMEnabled", Feature: "sm"}
+			}
+			return `<enabled xmlns="urn:xmpp:sm:3"` + g.attr("id", vfkit.Text(g.r, 8, false)) + ` resume="true" max="300">` + x + `</enabled>`, vfExpect{Kind: "SMEnabled", Feature: "sm+children"}
 		case 1:
-			return fmt.Sprintf(`<resumed xmlns="urn:xmpp:sm:3" previd="p" h="%d"/>`, g.r.Intn(1000)), vfExpect{Kind: "SMResumed", Feature: "sm"}
+			return fmt.Sprintf(`<resumed xmlns="urn:xmpp:sm:3" previd="p" h="%d">%s</resumed>`, g.r.Intn(1000), g.extra()), vfExpect{Kind: "SMResumed", Feature: "sm+children"}
 		case 2:
-			return fmt.Sprintf(`<resume xmlns="urn:xmpp:sm:3" previd="p" h="%d"/>`, g.r.Intn(1000)), vfExpect{Kind: "SMResume", Feature: "sm"}
+			return fmt.Sprintf(`<resume xmlns="urn:xmpp:sm:3" previd="p" h="%d">%s</resume>`, g.r.Intn(1000), g.extra()), vfExpect{Kind: "SMResume", Feature: "sm+children"}
 		case 3:
+			if x := g.extra(); x != "" {
+				return `<r xmlns="urn:xmpp:sm:3">` + x + `</r>`, vfExpect{Kind: "SMRequest", Feature: "sm+children"}
+			}
 			return `<r xmlns="urn:xmpp:sm:3"/>`, vfExpect{Kind: "SMRequest", Feature: "sm"}
 		case 4:
-			return fmt.Sprintf(`<a xmlns="urn:xmpp:sm:3" h="%d"></a>`, g.r.Intn(100000)), vfExpect{Kind: "SMAnswer", Feature: "sm"}
+			return fmt.Sprintf(`<a xmlns="urn:xmpp:sm:3" h="%d">%s</a>`, g.r.Intn(100000), g.extra()), vfExpect{Kind: "SMAnswer", Feature: "sm+children"}
 		default:
 			conds := []string{"", `<unexpected-request xmlns="urn:ietf:params:xml:ns:xmpp-stanzas"/>`, `<item-not-found xmlns="urn:ietf:params:xml:ns:xmpp-stanzas"/>`,
 				`<feature-not-implemented xmlns="urn:ietf:params:xml:ns:xmpp-stanzas"/>`, `<internal-server-error xmlns="urn:ietf:params:xml:ns:xmpp-stanzas"/>`,
@@ -393,11 +403,24 @@ func (g *vfXGen) element(n int, ns string, explicitNS bool) (string, vfExpect) {
 			if ci >= 2 && ci != 4 {
 				f = "sm-failed-stanza-condition"
 			}
-			return `<failed xmlns="urn:xmpp:sm:3"` + h + `>` + conds[ci] + `</failed>`, vfExpect{Kind: "SMFailed", Feature: f}
+			return `<failed xmlns="urn:xmpp:sm:3"` + h + `>` + conds[ci] + g.extra() + `</failed>`, vfExpect{Kind: "SMFailed", Feature: f}
 		}
 	default:
 		return `<handshake xmlns="jabber:component:accept">` + vfkit.Plain(g.r, g.r.Intn(40)) + `</handshake>`, vfExpect{Kind: "Handshake", Feature: "handshake"}
 	}
+}
+
+// extra returns 0-2 unknown children (possibly nested, possibly named like stanzas) that any element may contain.
+func (g *vfXGen) extra() string {
+	if g.r.Intn(3) != 0 {
+		return ""
+	}
+	var sb strings.Builder
+	for i := 1 + g.r.Intn(2); i > 0; i-- {
+		sb.WriteString(g.ws())
+		sb.WriteString(g.unknown(g.r.Intn(4), ""))
+	}
+	return sb.String()
 }
 
 func (g *vfXGen) join(ch []string) string {
@@ -485,9 +508,9 @@ func vfDecoderFor(data []byte, seg int, r *rand.Rand) *xml.Decoder {
 }
 
 type vfGot struct {
-	Kind string
+	Kind                     string
 	Type, Id, From, To, Lang string
-	Err  string
+	Err                      string
 }
 
 func vfDescribe(p Packet) vfGot {
